@@ -685,6 +685,22 @@ func verifAssume(cond bool) {}
 //@   ensures [C20] @wraps istype(b.mux.reqCmdHandlers[old(len(b.mux.reqCmdHandlers))], *requestCommandHandler) && b.mux.reqCmdHandlers[old(len(b.mux.reqCmdHandlers))].(*requestCommandHandler).predicate != nil && b.mux.reqCmdHandlers[old(len(b.mux.reqCmdHandlers))].(*requestCommandHandler).handlerFunc != nil
 //@   ensures [C20] @orderkept forall k : 0 <= k && k < old(len(b.mux.reqCmdHandlers)) ==> b.mux.reqCmdHandlers[k] == old(b.mux.reqCmdHandlers[k])
 
+// The negotiation policy a server is built with is exactly the one the application
+// configured (C09/C10): the option setters replace the list with the caller's, they
+// do not merge it with the defaults of NewServerConfig (which include `none`).
+//@ func (*ServerBuilder).EncryptionOptions :: (b, encryptOpts) (result)
+//@   props C09 C10
+//@   requires b != nil && b.config != nil && !sameobj(b.config, b)
+//@   panics only-if len(encryptOpts) == 0
+//@   modifies b.config.EncryptOpts
+//@   ensures [C09,C10] @policyset result == b && len(b.config.EncryptOpts) == len(encryptOpts) && elems(b.config.EncryptOpts) == elems(encryptOpts)
+//@ func (*ServerBuilder).CompressionOptions :: (b, compOpts) (result)
+//@   props C09 C10
+//@   requires b != nil && b.config != nil && !sameobj(b.config, b)
+//@   panics only-if len(compOpts) == 0
+//@   modifies b.config.CompOpts
+//@   ensures [C09,C10] @policyset result == b && len(b.config.CompOpts) == len(compOpts) && elems(b.config.CompOpts) == elems(compOpts)
+
 // Build hands the mux over as it is: nothing is registered, removed or reordered
 // at build time (the tables are outside Build's frame).
 //@ globalinv defaultServerConfig != nil  ## package initialiser: var defaultServerConfig = NewServerConfig(), never reassigned
